@@ -74,10 +74,14 @@ fn oracle_with(cases: &[AuthCase], c: &SelCase, cx: &mut CaseCtx) -> Result<(), 
             cx.class("selection_undefined_for_version_or_malformed");
             g.iter().map(|(t, k)| (t.to_string(), k.clone())).collect()
         }
-        (Some(w), Err(_)) => {
-            // ruma refuses to select for content it considers malformed: totality only
-            cx.class("selection_error_totality_only");
-            w.clone()
+        (Some(w), Err(err)) => {
+            // the reference yields a selection only when every field the selection rules read is
+            // well-formed, so a refusal here means ruma read (and choked on) something else
+            return Err(format!(
+                "room version {v}: auth-event selection for {} fails ({err}) although every field the selection rules read is well-formed; the specification selects {:?}",
+                brief_ev(e),
+                w.iter().map(|(t, k)| format!("{}|{k}", t.trim_start_matches("m.room."))).collect::<Vec<_>>()
+            ));
         }
         (None, Err(_)) => {
             cx.class("selection_error_totality_only");
